@@ -998,6 +998,10 @@ class TermCanvas(Canvas):
         else:
             row = self.scrollregion_start
 
+        if not self.scrollregion_start <= row <= self.scrollregion_end:
+            # outside of the scrolling region: ignored
+            return
+
         if lines == 0:
             lines = 1
 
@@ -1019,6 +1023,10 @@ class TermCanvas(Canvas):
             row = self.term_cursor[1]
         else:
             row = self.scrollregion_start
+
+        if not self.scrollregion_start <= row <= self.scrollregion_end:
+            # outside of the scrolling region: ignored
+            return
 
         if lines == 0:
             lines = 1
